@@ -24,8 +24,8 @@ CHECKS = {
  "C02": ('abstract interpretation of all 53 query entry points on small symbolic graphs with presence as an uninterpreted predicate (all valuations); mode-consistent materialised timelines for get_node_snapshots; purity (taint) rule',
          "Each query's interpreted answer equals the projection of the static graph of present pairs: filtered through the presence test with the right orientation, every interaction once, nbunch through nbunch_iter (incl. one-shot iterators and unknown nodes), wrappers forward their arguments, both removal modes; counting queries also on shapes with a self-loop (a loop adds two to the degree and is one interaction). Bounded graph shapes (4 nodes). Pinned deviations (directed enumeration de-dup, density(t), self-loop halving) are known findings.",
          "3.6 S1, 4/C02"),
- "C06": ("order-type abstract interpretation of time_slice (both classes and the functional form, through to the method) into a recording result graph; endpoint-convention typing; purity",
-         "For every order type of the window against a canonical timeline: exactly one add_interaction(u, v, max(a,F), min(b,T)+1) per interval meeting the window, none otherwise, in order; ValueError iff t_to < t_from; default t_to = t_from (a bound that is the literal 0 included); result class; node attributes; source untouched.",
+ "C06": ("order-type abstract interpretation of time_slice (both classes and the functional form, through to the method) into a recording result graph, per pair and on 4-node symbolic graphs; endpoint-convention typing; purity",
+         "For every order type of the window against a canonical timeline: exactly one add_interaction(u, v, max(a,F), min(b,T)+1) per interval meeting the window, none otherwise, in order; ValueError iff t_to < t_from; default t_to = t_from (a bound that is the literal 0 included); result class; node attributes; source untouched; at graph level (several pairs at once, six windows) the slice holds exactly the presence of the source inside the window, its nodes are the endpoints, node ids are never ordered.",
          "3.2, 4/C06"),
  "C09": ('abstract interpretation of generate_snapshots (canonical timelines), of write_snapshots on k opaque rows into a recording file (k sized from the constants in the writer), of read_snapshots on a recorded binary file, of parse_snapshots on a structural model of text lines, of the open_file wrapper and of make_str (constant propagation); writer/reader table and parameter-flow rules',
          "Structural necessary conditions of the round trip: one row per (interaction, instant), unswapped, requested delimiter; every row shape of the grammar x delimiter x nodetype/timestamptype/keys is skipped or handed to add_interaction as (u, v, t, vanishing e) with the right columns, TypeError on failing conversions; string paths opened by extension and closed, caller's file objects untouched; the file holds the generated rows in order, one per line, written through ONE encoder for the requested encoding (row counts 0..3 and around every size constant of the writer, so a block writer is judged across its block boundary); the reader decodes the stream as a whole in the requested encoding before splitting it into lines; make_str(x) == str(x); modes / path index / delimiter flow. Equality of graphs after a round trip is NOT decided.",
@@ -57,8 +57,8 @@ CHECKS = {
  "C15": ('abstract interpretation of temporal_dag on symbolic temporal graphs (recording DAG, structured occurrence names) judged clause by clause; prefix (defaults, guard, window; bisect/slices as rank arithmetic) over all orderings',
          'Edge soundness and orientation, s<t except from source occurrences, no edge from an occurrence to itself, sources exact, targets occurrences of v and DAG nodes, waiting only through active instants - on bounded shapes incl. a label that is a prefix of another, a self-loop on the root and non-chronological insertion order of snapshot ids; ValueError exactly for invalid windows; empty DAG without snapshots; window ids exact and ascending for all orderings. Acyclicity follows from these clauses; larger graphs are not decided.',
          "3.2, 4/C15"),
- "C17": ('abstract interpretation of the four inter-event distributions on symbolic event streams and of seven ratio statistics on a symbolic graph with materialised timelines (exact fractions); interval-length typing; purity',
-         'Global / per-node (either, source, target) / per-pair distributions equal the gap histograms on streams with ties, equal gaps and an emptied log bucket; coverage, node_contribution, uniformity, node_pair_uniformity, density, pair_density, node_presence equal their definitions on 49 (thorough: 1024) presence valuations of a 4-node graph with seven snapshot ids (runs, holes, nested and staggered runs; |T| differs from the span); edge_contribution measures closed intervals as end-start+1; observers pure. node_density / snapshot_density not covered; bounded shapes.',
+ "C17": ('abstract interpretation of the four inter-event distributions on symbolic event streams and of nine ratio statistics on a symbolic graph with materialised timelines (exact fractions); interval-length typing; purity',
+         'Global / per-node (either, source, target) / per-pair distributions equal the gap histograms on streams with ties, equal gaps and an emptied log bucket; coverage, node_contribution, uniformity, node_pair_uniformity, density, pair_density, node_presence equal their definitions on 49 (thorough: 1024) presence valuations of a 4-node graph with seven snapshot ids (runs, holes, nested and staggered runs; |T| differs from the span); edge_contribution measures closed intervals as end-start+1; observers pure. node_density (formula fixed by the pinned suite) and snapshot_density (networkx.density modelled on the slice) likewise; an instant tested for truth is also placed at the literal 0; bounded shapes.',
          "4/C17"),
  "C20": ("abstract interpretation of delta_conformity end to end and of sliding_delta_conformity (with delta_conformity recorded) on symbolic temporal graphs; constant propagation of the float arithmetic on concrete hop distances",
          "On bounded shapes (3 nodes, 2-3 stored pairs, ids 1,2,4, every presence valuation, three windows, uniform / two-valued / all label partitions, alphas 1.0 and 2.5): None iff the window is empty, scores for exactly the nodes present at start per alpha and profile, every score in [-1,1] (also for damping factors that share a '%.2f' key), unchanged under renaming of label values, 1 / 0 under a single shared label; the sliding driver evaluates exactly the windows with t+delta before the last id, forwards its arguments, skips None and stamps t+delta. Renaming of node ids, hierarchies, profile_size>1 and larger graphs are NOT decided.",
@@ -80,7 +80,7 @@ def main():
             "engine": "sa",
             "level_claimed": {"category": "other", "text": "static analysis: " + text, "design_ref": ref},
             "level_note": "trusted base: Python's ast of /repo's working tree; the abstract semantics of the statement forms listed in sa/absint.py; the hand-written specification tables in sa/merge_check.py and the source-kind tables; assumptions are repeated in each evidence file. Clauses not decided are named in DESIGN.md section 4.",
-            "technique": tech,
+            "technique": tech + "; syntactic rule on state shared between calls or graphs (mutable defaults, class-level mutables, memoisation on a graph, module-level one-shot iterators)",
         })
     pending = [p for p in ["C%02d" % i for i in range(1, 21)] if p not in built and p not in dict(NA)]
     na = [{"property_id": p, "reason": r} for p, r in NA] + [
